@@ -85,8 +85,15 @@ Definition sqrt_le_plus (xx yy eps : Z) : bool :=
   let l := xx - yy - eps * eps in
   (l <=? 0) || (l * l <=? 4 * eps * eps * yy).
 
-(* tolerance of the comparison with the f32 implementation: 1e-6 in distance *)
+(* EPSILON.  One tolerance is used everywhere: eps = 1e-6 in linear-light units
+   (the unit in which a channel ranges over [0,1]), i.e. tol256 in scaled units.
+   It bounds (a) the error of each typed table constant against the library's own
+   linearisation (tables_ok), (b) the slack allowed to the f32 implementation
+   against the exact optimum in the correspondence check (1e-6 in DISTANCE), and
+   it appears in the theorem about the true palette positions as 12 * eps in
+   SQUARED distance (Color256Proofs.pal256_true_palette_upto_eps). *)
 Definition tol256 : Z := color_den / 1000000.
+Definition eps_sq_bound : Z := 12 * tol256 * color_den.
 Definition tol_luma : Z := luma_den / 1000000 + 1.
 
 Fixpoint sortedb (t : list Z) : bool :=
@@ -116,5 +123,31 @@ Definition tables_ok : bool :=
   && all2 close cube_z xterm_cube_levels && all2 close greys_z xterm_grey_levels
   && sortedb gray_levels_z && Nat.eqb (length gray_levels_z) 4 && Nat.eqb (length srgb_z) 256
   && sortedb srgb_z
+  (* all linear-light values lie in [0, 1] *)
+  && forallb (fun x => (0 <=? x) && (x <=? color_den)) (srgb_z ++ cube_z ++ greys_z)
+  (* the four levels are sent as the system colours 0, 8, 7, 15 (SGR 30 / 90 / 37 / 97): in xterm's
+     default palette these are (0,0,0), (127,127,127), (229,229,229), (255,255,255), of strictly
+     increasing luma, so "level k" is the k-th darkest of the four *)
+  && sortedb (map luma_z [mkRgba 0 0 0 255; mkRgba 127 127 127 255; mkRgba 229 229 229 255; mkRgba 255 255 255 255])
+  && (nth 0 gray_codes 0 =? 30)%N && (nth 1 gray_codes 0 =? 90)%N && (nth 2 gray_codes 0 =? 37)%N
+  && (nth 3 gray_codes 0 =? 97)%N && (gray_bg_offset =? 10)%N
   (* the four grey levels stand for luminance 0, 1/3, 2/3, 1 (within 0.01) *)
   && all2 (fun l k => Z.abs (3 * l - k * luma_den) <=? 3 * (luma_den / 100)) gray_levels_z [0; 1; 2; 3].
+
+(* the typed entry and the true entry of every palette index differ by at most eps per channel *)
+Definition vec_close (a b : vec) : bool :=
+  let '(x, y, z) := a in let '(u, v, w) := b in
+  (Z.abs (x - u) <=? tol256) && (Z.abs (y - v) <=? tol256) && (Z.abs (z - w) <=? tol256).
+Definition vec_in_unit (a : vec) : bool :=
+  let '(x, y, z) := a in
+  (0 <=? x) && (x <=? color_den) && (0 <=? y) && (y <=? color_den) && (0 <=? z) && (z <=? color_den).
+Definition entries_close : bool :=
+  forallb (fun n => vec_close (entry cube_z greys_z n) (entry xcube_z xgreys_z n)
+                    && vec_in_unit (entry cube_z greys_z n) && vec_in_unit (entry xcube_z xgreys_z n))
+          palette_indices.
+
+(* the 240 true palette entries once (not per case), and the brute-force minimum over them;
+   Color256Proofs.best_d2_tab_eq: this IS best_d2 at the true positions *)
+Definition palette_entries : list vec := Eval vm_compute in map (entry xcube_z xgreys_z) palette_indices.
+Definition best_d2_tab (v : vec) : Z :=
+  fold_left (fun m e => Z.min m (d2 v e)) palette_entries (d2 v (entry xcube_z xgreys_z 16)).
